@@ -394,7 +394,7 @@ def main():
         print("MANIFEST.json written (jsonschema not available in this interpreter)")
 
 
-SOURCE_COMMITS = ["6d017b8", "5bee0e2", "d442263", "1972f03", "e564cac", "7c5564a", "eac9679", "3d7d923", "6138459", "e52828b", "7010af2", "d5ab2d6", "a685388", "e5bfc9a", "cd1aabd", "ad18f81", "92ad9aa", "b54ddd7", "19d8022", "67c1438", "79fdcf6", "612a098", "eebdc4e", "a13d47c", "92032bf", "dc91e56", "541c366", "0c29f11", "76a1f96", "4e6bc4f", "1adac4f", "b093332", "a68cf5e", "7fa11bf", "512fa49", "83c1bef", "d022787", "e15cdb0", "72be92d", "9e0e81f", "f5febfc", "25bac66", "6afefb9", "5ea8bd0", "035a8f6", "de96948", "32f41c1", "f4ad043", "d16e652", "7343cc7", "88025d9", "f19e51a", "b0cb879", "45a5746", "95f7824", "919a66c", "7ddf2a5", "cb00364", "3436097", "af9dac3", "66c14a6", "3f87cdf", "5bcd2dd", "1be02a6", "c39f60c", "fb6271f", "299ea2c", "61dacfa", "48b8f89", "70bf6b9", "891015e", "8216bb7", "5d079f4", "d38f84f", "5c5d6c3", "41efeeb", "0d2774f", "36abbc7", "5da3f52", "bac4f6b", "1a32924", "3cbfe59", "149d1e7", "fa1a858", "cbbac44", "704d82e", "a1088a7", "e3d0214", "e9c1301", "ea5fbe4", "d2375fb", "8765dcd", "da8c13c", "1631656", "77b3180", "c8fa939", "2e471a1"]
+SOURCE_COMMITS = ["6d017b8", "5bee0e2", "d442263", "1972f03", "e564cac", "7c5564a", "eac9679", "3d7d923", "6138459", "e52828b", "7010af2", "d5ab2d6", "a685388", "e5bfc9a", "cd1aabd", "ad18f81", "92ad9aa", "b54ddd7", "19d8022", "67c1438", "79fdcf6", "612a098", "eebdc4e", "a13d47c", "92032bf", "dc91e56", "541c366", "0c29f11", "76a1f96", "4e6bc4f", "1adac4f", "b093332", "a68cf5e", "7fa11bf", "512fa49", "83c1bef", "d022787", "e15cdb0", "72be92d", "9e0e81f", "f5febfc", "25bac66", "6afefb9", "5ea8bd0", "035a8f6", "de96948", "32f41c1", "f4ad043", "d16e652", "7343cc7", "88025d9", "f19e51a", "b0cb879", "45a5746", "95f7824", "919a66c", "7ddf2a5", "cb00364", "3436097", "af9dac3", "66c14a6", "3f87cdf", "5bcd2dd", "1be02a6", "c39f60c", "fb6271f", "299ea2c", "61dacfa", "48b8f89", "70bf6b9", "891015e", "8216bb7", "5d079f4", "d38f84f", "5c5d6c3", "41efeeb", "0d2774f", "36abbc7", "5da3f52", "bac4f6b", "1a32924", "3cbfe59", "149d1e7", "fa1a858", "cbbac44", "704d82e", "a1088a7", "e3d0214", "e9c1301", "ea5fbe4", "d2375fb", "8765dcd", "da8c13c", "1631656", "77b3180", "c8fa939", "2e471a1", "9e525cc"]
 
 if __name__ == "__main__":
     main()
